@@ -212,6 +212,13 @@ func (n *Net) CloseAll() {
 	}
 }
 
+// AddFaultLocked is AddFault for callers that already run under the
+// simulation lock (a pipe's Filter).
+func (p *Pipe) AddFaultLocked(f Fault) {
+	ff := f
+	p.faults = append(p.faults, &ff)
+}
+
 func (p *Pipe) AddFault(f Fault) {
 	p.net.S.Lock()
 	ff := f
